@@ -56,6 +56,28 @@ type N struct {
 	SI []interface{}
 	MI map[string]interface{}
 	L  interface{}
+	BK  *Book
+	ROW *[2]Cell
+}
+
+// interior pointers: a *Header can point at a Book's embedded FIRST field and a *Cell at element 0 of a [2]Cell:
+// the same address as the enclosing *Book / *[2]Cell, a different type, hence a different reference for the checker
+type Header struct {
+	Title string
+	Back  *Header
+	Up    *N
+}
+
+type Book struct {
+	Header
+	Ref  *Header
+	Next *N
+}
+
+type Cell struct {
+	V    int
+	Peer *Cell
+	Up   *N
 }
 
 type P *P // pointer cycle without any container (outside the property)
@@ -105,6 +127,10 @@ type NodeDesc struct {
 	A            [2]int
 	SI, MI       []IVal
 	HasSI, HasMI bool
+	Book             string // "", plain: BK.Ref = &BK.Header (acyclic); cyc: also BK.Header.Back = &BK.Header (a real cycle)
+	BookUp, BookNext int
+	Row              string // "", peer10: ROW[1].Peer = &ROW[0] (acyclic); self0: also ROW[0].Peer = &ROW[0] (a real cycle)
+	RowUp            int
 	PSNil, PMNil bool   // PS / PM point to a NIL slice / map (pointer to a nil collection)
 	L            string // "", func, sendchan, recvchan, complex, complexok, raw, oddmbs, evenmbs, failm, panicm, failselfer, unsafeptr
 	LPtr         bool   // leaf behind a pointer (failm/panicm/failselfer)
@@ -332,6 +358,50 @@ func (b *built) fill(d *GraphDesc) {
 			lt = "VIface (VBad BUnsupKind false)"
 		}
 		f = append(f, lt)
+		// a cell of the model is one (address, type) reference: the interior pointers get cells of their own that
+		// hold the same contents as the field / element they point at
+		if nd.Book != "" {
+			bk := &Book{}
+			bk.Title = "t"
+			bk.Header.Up = node(nd.BookUp)
+			bk.Next = node(nd.BookNext)
+			bk.Ref = &bk.Header
+			ch := alloc("")
+			cb := alloc("")
+			back := "VNil NPtr"
+			if nd.Book == "cyc" {
+				bk.Header.Back = &bk.Header
+				back = fmt.Sprintf("VPtr %d", ch)
+			}
+			n.BK = bk
+			hdr := []string{"VScalar", back, ptrTerm(nd.BookUp)}
+			b.cells[ch] = "VStruct " + coqList(hdr)
+			b.cells[cb] = "VStruct " + coqList(append(append([]string{}, hdr...), fmt.Sprintf("VPtr %d", ch), ptrTerm(nd.BookNext)))
+			f = append(f, fmt.Sprintf("VPtr %d", cb))
+		} else {
+			f = append(f, "VNil NPtr")
+		}
+		if nd.Row != "" {
+			row := &[2]Cell{}
+			row[0].V, row[1].V = 1, 2
+			row[0].Up = node(nd.RowUp)
+			row[1].Peer = &row[0]
+			c0 := alloc("")
+			cr := alloc("")
+			peer0 := "VNil NPtr"
+			if nd.Row == "self0" {
+				row[0].Peer = &row[0]
+				peer0 = fmt.Sprintf("VPtr %d", c0)
+			}
+			n.ROW = row
+			cell0 := "VStruct " + coqList([]string{"VScalar", peer0, ptrTerm(nd.RowUp)})
+			cell1 := "VStruct " + coqList([]string{"VScalar", fmt.Sprintf("VPtr %d", c0), "VNil NPtr"})
+			b.cells[c0] = cell0
+			b.cells[cr] = "VArr " + coqList([]string{cell0, cell1})
+			f = append(f, fmt.Sprintf("VPtr %d", cr))
+		} else {
+			f = append(f, "VNil NPtr")
+		}
 		b.cells[i] = "VStruct " + coqList(f)
 	}
 	// shapes outside the property, hung on node 0
@@ -617,6 +687,21 @@ func randGraph(r *vh.Rng, m genMode, leaf string, leafPtr bool) *GraphDesc {
 	d := &GraphDesc{Nodes: make([]NodeDesc, k)}
 	for i := 0; i < k; i++ {
 		nd := &d.Nodes[i]
+		nd.BookUp, nd.BookNext, nd.RowUp = -1, -1, -1
+		if r.Chance(m.density, 16) {
+			nd.Book = "plain"
+			if !m.dag && r.Chance(1, 3) {
+				nd.Book = "cyc"
+			}
+			nd.BookUp, nd.BookNext = randTarget(r, i, k, m, false), randTarget(r, i, k, m, false)
+		}
+		if r.Chance(m.density, 16) {
+			nd.Row = "peer10"
+			if !m.dag && r.Chance(1, 3) {
+				nd.Row = "self0"
+			}
+			nd.RowUp = randTarget(r, i, k, m, false)
+		}
 		nd.P = randTarget(r, i, k, m, false)
 		nd.PP = randTarget(r, i, k, m, false)
 		nd.EP = randTarget(r, i, k, m, false)
@@ -694,6 +779,12 @@ func succ(nd *NodeDesc) []int {
 			out = append(out, iv.Ts...)
 		}
 	}
+	if nd.Book != "" { // the Header is written twice: flattened into the Book and through Ref
+		out = append(out, nd.BookUp, nd.BookUp, nd.BookNext)
+	}
+	if nd.Row != "" { // element 0 is written twice: in the array and through ROW[1].Peer
+		out = append(out, nd.RowUp, nd.RowUp)
+	}
 	return out
 }
 
@@ -725,6 +816,11 @@ func reachable(d *GraphDesc) (seen []bool, cyc bool) {
 	}
 	if d.Inside != "" && seen[d.InsideAt] {
 		cyc = true
+	}
+	for i := range d.Nodes {
+		if seen[i] && (d.Nodes[i].Book == "cyc" || d.Nodes[i].Row == "self0") {
+			cyc = true
+		}
 	}
 	return
 }
@@ -760,27 +856,8 @@ func treeSize(d *GraphDesc) int {
 				t = capN
 			}
 		}
-		add(nd.P)
-		add(nd.PP)
-		add(nd.EP)
-		add(nd.A[0])
-		add(nd.A[1])
-		for _, l := range [][]int{nd.S, nd.M, nd.PS, nd.PM} {
-			for _, x := range l {
-				add(x)
-			}
-		}
-		ivs := append([]IVal{nd.I, nd.EI}, nd.SI...)
-		ivs = append(ivs, nd.MI...)
-		for _, iv := range ivs {
-			switch iv.Kind {
-			case "ptr", "pp":
-				add(iv.T)
-			case "slice", "map", "islice", "imap":
-				for _, x := range iv.Ts {
-					add(x)
-				}
-			}
+		for _, x := range succ(nd) {
+			add(x)
 		}
 		state[i] = 2
 		memo[i] = t
@@ -837,6 +914,13 @@ func repaired(d *GraphDesc) *GraphDesc {
 		od := &d.Nodes[i]
 		nd.S, nd.M, nd.PS, nd.PM = fixl(i, od.S), fixl(i, od.M), fixl(i, od.PS), fixl(i, od.PM)
 		nd.P, nd.PP, nd.EP = fix(i, nd.P), fix(i, nd.PP), fix(i, nd.EP)
+		nd.BookUp, nd.BookNext, nd.RowUp = fix(i, nd.BookUp), fix(i, nd.BookNext), fix(i, nd.RowUp)
+		if nd.Book == "cyc" {
+			nd.Book = "plain"
+		}
+		if nd.Row == "self0" {
+			nd.Row = "peer10"
+		}
 		nd.A = [2]int{fix(i, nd.A[0]), fix(i, nd.A[1])}
 		nd.I, nd.EI = fixiv(i, nd.I), fixiv(i, nd.EI)
 		for j := range nd.SI {
@@ -1216,7 +1300,7 @@ func main() {
 		}
 	}
 	r := vh.NewRng(vh.SeedFromEnv())
-	sum := vh.NewSummary("graph: random adjacency over node type N (*N, **N, []*N, map[string]*N, interface{} holding ptr/pp/slice/map/[]interface{}/map[string]interface{}, embedded struct, *[]*N, *map[string]*N, [2]*N) x {dag, arbitrary} x CheckCircularRef x root kind x 5 formats, ops Encode/Encode/repair+Reset/Encode; leaves: every unrepresentable kind (and its representable twin) at a random node, optionally behind a pointer; child: cyclic without the option and cycles through map/slice/*interface{}/type P *P only, in a child process; distinct by (stream, cyclic, option, leaf, root kind, nodes, outcome)")
+	sum := vh.NewSummary("graph: random adjacency over node type N (*N, **N, []*N, map[string]*N, interface{} holding ptr/pp/slice/map/[]interface{}/map[string]interface{}, embedded struct, *[]*N, *map[string]*N, [2]*N, *Book whose Ref points at its embedded first field, *[2]Cell whose element 1 points at element 0: same address, other type) x {dag, arbitrary} x CheckCircularRef x root kind x 5 formats, ops Encode/Encode/repair+Reset/Encode; leaves: every unrepresentable kind (and its representable twin) at a random node, optionally behind a pointer; child: cyclic without the option and cycles through map/slice/*interface{}/type P *P only, in a child process; distinct by (stream, cyclic, option, leaf, root kind, nodes, outcome)")
 	cv := vh.NewCases(*cases, "From Coq Require Import List NArith.\nFrom Verif Require Import Base.Outcome C20.Model C20.Corr.\nImport ListNotations.", "case", "mismatches", 40)
 	if *prefail != "" {
 		if bs, err := os.ReadFile(*prefail); err == nil {
